@@ -670,6 +670,49 @@ func runScanShape(m *model.Model, s *ob.Set) {
 		}
 	}
 
+	// (1d) the exponent is consumed on every successful parse: each exit of (*Decimal).scan that
+	// returns a result is dominated by the call of scanExponent (a zero mantissa is no reason to
+	// leave "e+00" in the reader: Parse then reports trailing characters)
+	{
+		var se *ssa.Call
+		for _, b := range scan.Blocks {
+			for _, in := range b.Instrs {
+				if c, ok := in.(*ssa.Call); ok {
+					if cal := c.Call.StaticCallee(); cal != nil && m.FuncName(cal) == "scanExponent" {
+						se = c
+					}
+				}
+			}
+		}
+		if se == nil {
+			s.Note(R, "(*Decimal).scan/exponent-consumed", pos, "scanExponent is not called from scan (not decided)")
+		} else {
+			live := m.Live(scan)
+			bad := ""
+			for _, b := range scan.Blocks {
+				if !live[b.Index] {
+					continue
+				}
+				r, ok := b.Instrs[len(b.Instrs)-1].(*ssa.Return)
+				if !ok || !isSuccessReturn(m, r) {
+					continue
+				}
+				if !m.InstrDominates(se, r) {
+					bad = m.InstrPos(r) + ": a result is returned on a path that never called scanExponent"
+				}
+			}
+			s.Check(bad == "", R, "(*Decimal).scan/exponent-consumed", pos, "every successful exit has consumed the exponent", bad+": the exponent stays in the input and Parse/SetString reject what the e and E formats print for ±0")
+		}
+	}
+	// (1e) rounded once: no rounding of z is followed by another rounding of z inside scan (the
+	// plain round(0) belongs to the path without a binary exponent; on the other path the final
+	// Mul/Quo is the one rounding)
+	if bad := roundedTwice(m, scan, 0); bad != "" {
+		s.Bad(R, "(*Decimal).scan/rounded-once", pos, bad+": a literal with a binary exponent is rounded to the precision and then scaled and rounded again (the accuracy reported is that of the second rounding only)")
+	} else {
+		s.Ok(R, "(*Decimal).scan/rounded-once", pos, "no path rounds z twice")
+	}
+
 	// (2) RADIXBITS
 	if bval == nil {
 		model.Fatal("SCANSHAPE: result b of dec.scan not found in (*Decimal).scan")
@@ -1233,4 +1276,59 @@ func fmtStale(m *model.Model, fn *ssa.Function, setCall *ssa.Call) string {
 		}
 	}
 	return ""
+}
+
+// roundedTwice: some path of fn applies two operations that may round to parameter k. Returns
+// the position of the second one ("" if none).
+func roundedTwice(m *model.Model, fn *ssa.Function, k int) string {
+	reach := reachesRound(m)
+	live := m.Live(fn)
+	n := len(fn.Blocks)
+	st := make([]int, n) // 0 unreached, 1 not yet rounded, 2 may have been rounded
+	st[0] = 1
+	bad := ""
+	rounds := func(in ssa.Instruction) bool {
+		cal, c := model.Callee(in)
+		if cal == nil || reach[cal] == nil {
+			return false
+		}
+		for ai, a := range c.Args {
+			if m.IsDecPtr(a.Type()) && reach[cal][ai] && m.RefOf(a).MayBeParam(k) {
+				return true
+			}
+		}
+		return false
+	}
+	step := func(b *ssa.BasicBlock, v int, rec bool) int {
+		for _, in := range b.Instrs {
+			if rounds(in) {
+				if v == 2 && rec && bad == "" {
+					bad = m.InstrPos(in) + ": the object is rounded here after it may already have been rounded earlier in " + m.FuncName(fn)
+				}
+				v = 2
+			}
+		}
+		return v
+	}
+	work := []int{0}
+	for len(work) > 0 {
+		bi := work[len(work)-1]
+		work = work[:len(work)-1]
+		if !live[bi] {
+			continue
+		}
+		out := step(fn.Blocks[bi], st[bi], false)
+		for _, ed := range model.LiveSuccs(fn.Blocks[bi]) {
+			if out > st[ed.To.Index] {
+				st[ed.To.Index] = out
+				work = append(work, ed.To.Index)
+			}
+		}
+	}
+	for bi, b := range fn.Blocks {
+		if st[bi] != 0 && live[bi] {
+			step(b, st[bi], true)
+		}
+	}
+	return bad
 }
